@@ -55,9 +55,8 @@ func (c *Ctx) ContributionRules(prop string) {
 		return
 	}
 	// ---- O2: the check only succeeds for vectors of exactly threshold entries
-	if vThr < 0 {
-		c.R.Fail(rule2, Fn(V), c.P.FuncPos(V), "the contribution check is not told the threshold, so it cannot require the verification vector to have exactly threshold entries (a longer vector makes commit index past the aggregate; a shorter one yields an unusable key)", "verifyContribution(id, threshold, share, vector) with [len(vector) == threshold]", nil)
-	} else {
+	verifyHasLen := false
+	if vThr >= 0 {
 		lenAtom := func(a *an.Atom) bool {
 			if a == nil || a.Op != "==" {
 				return false
@@ -97,10 +96,11 @@ func (c *Ctx) ContributionRules(prop string) {
 			if x, path := an.Cut(an.CutQuery{From: an.Entry(V), Target: func(i ssa.Instruction) bool { return i == target },
 				AcceptEdge: func(b *ssa.BasicBlock, i int, a *an.Atom) bool { return lenAtom(a) }}); x != nil {
 				bad = true
-				c.R.Fail(rule2, Fn(V), c.Pos(ret), "a contribution can be accepted whose verification vector does not have exactly threshold entries", "accept only below [len(vector) == threshold]", an.PathString(c.Pos, path))
+				_ = path
 			}
 		}
 		if !bad && ntrue > 0 {
+			verifyHasLen = true
 			c.R.OK(rule2, Fn(V), c.P.FuncPos(V), "every accepting return is cut by [len(vector) == threshold]")
 		}
 	}
@@ -177,6 +177,48 @@ func (c *Ctx) ContributionRules(prop string) {
 						}
 						return true
 					}})
+				if isVec {
+					// O2: the vector recorded has exactly session.threshold entries: through the check (if it tests the length itself) or a local test
+					y, ypath := an.Cut(an.CutQuery{From: an.Entry(fn), Target: func(i ssa.Instruction) bool { return i == target },
+						AcceptEdge: func(b *ssa.BasicBlock, i int, a *an.Atom) bool {
+							if a == nil {
+								return false
+							}
+							if a.Op == "true" && verifyHasLen {
+								if call, ok := a.LV.(*ssa.Call); ok && call.Call.StaticCallee() == V && call.Call.Args[vVec] == mu.Value {
+									if tf, s2 := p.sessionFieldOf(call.Call.Args[vThr]); tf == "threshold" && s2 == sess {
+										return true
+									}
+								}
+							}
+							if a.Op == "==" {
+								strip := func(v ssa.Value) ssa.Value {
+									for {
+										if cv, ok := v.(*ssa.Convert); ok {
+											v = cv.X
+											continue
+										}
+										return v
+									}
+								}
+								l, r := strip(a.LV), strip(a.RV)
+								for _, side := range [][2]ssa.Value{{l, r}, {r, l}} {
+									call, ok := side[0].(*ssa.Call)
+									if ok && isBuiltin(call, "len") && call.Call.Args[0] == mu.Value {
+										if tf, s2 := p.sessionFieldOf(side[1]); tf == "threshold" && s2 == sess {
+											return true
+										}
+									}
+								}
+							}
+							return false
+						}})
+					if y != nil {
+						c.R.Fail(rule2, Fn(fn)+":"+f, c.Pos(mu), "a received verification vector is recorded without its length having been tested against the session threshold: a longer vector makes commit index past the threshold-sized aggregate (crash), a shorter one yields accounts that fail only at the initiator's final check", "record only below [len(vector) == session.threshold] (in the contribution check or next to it)", an.PathString(c.Pos, ypath))
+					} else {
+						c.R.OK(rule2, Fn(fn)+":"+f, c.Pos(mu), "recorded only below [len(vector) == session.threshold]")
+					}
+				}
 				if x != nil {
 					c.R.Fail(rule1, Fn(fn)+":"+f, c.Pos(mu), "a received "+f+" entry is recorded in the session without having passed the contribution check (against this instance's id and the session threshold)", "store only below [verifyContribution(session.id, session.threshold, share, vector) == true] for the same share and vector", an.PathString(c.Pos, path))
 				} else {
@@ -678,6 +720,7 @@ func init() {
 		ID: "C13",
 		Run: func(c *Ctx) {
 			c.ContributionRules("C13")
+			c.StoredBeforeSuccess("C13")
 			c.SessionLifecycle("C13")
 		},
 		Explanation: "A received share or verification vector enters the session only below the contribution check applied to that very share and vector, this instance's id and the session threshold; the check accepts only vectors of exactly threshold entries (so the aggregate, sized by the threshold, is never indexed out of range); the account is written only by commit, below one share and one vector per listed participant; the initiator starts commit messages only past the nil-error edge of every prepare and execute; undecodable contributions return before the process service. See DESIGN.md §5 C13.",
@@ -687,10 +730,85 @@ func init() {
 		ID: "C12",
 		Run: func(c *Ctx) {
 			c.ThresholdRules("C12")
+			c.StoredBeforeSuccess("C12")
 			c.VerifiedBeforeSuccess("C12")
 			c.OverlayRules("C12")
 		},
 		Explanation: "Claimed clauses only: a generation starts only below [n != 0], [t <= n] and [n/2 < t]; the threshold checked is the one sent in prepare, recorded in the session (never changed) and stored with the account; distributed generation reports success only past error-free, non-empty commit replies, pairwise key equality over all participants and a successful recover+verify of every window of t confirmation signatures against the returned key; every created account is added to the in-memory cache, whose lookups and listing consult the overlay. See DESIGN.md §5 C12.",
 		Trusted:     append([]string{"Shamir/BLS mathematics inside herumi (share consistency, threshold recovery) is not decided"}, commonTrusted...),
 	})
+}
+
+// StoredBeforeSuccess (C12.O5): the functions that create accounts report success only if the wallet's create/import call
+// succeeded, and commit reports success only if that function did.
+func (c *Ctx) StoredBeforeSuccess(prop string) {
+	rule := "C12.O5 stored-before-success"
+	p := c.Proc(prop + ".anchors")
+	if !p.OK() {
+		return
+	}
+	isCreate := func(ci ssa.CallInstruction) bool {
+		cc := ci.Common()
+		return cc.IsInvoke() && (cc.Method.Name() == "ImportDistributedAccount" || cc.Method.Name() == "CreateAccount") && strings.HasPrefix(an.TypeStr(cc.Value.Type()), pkgWTypes)
+	}
+	creators := map[*ssa.Function]bool{}
+	n := 0
+	for _, fn := range c.P.ModuleFuncs() {
+		if prog.PkgPathOf(fn) != p.Impl.Obj().Pkg().Path() || fn.Blocks == nil || fn.Parent() != nil {
+			continue
+		}
+		if len(Calls(fn, isCreate)) == 0 || errResultIndex(fn) < 0 {
+			continue
+		}
+		n++
+		esc, commits := NilErrorNeeds(fn, isCreate)
+		for _, e := range esc {
+			c.R.Fail(rule, Fn(fn), c.Pos(e.Ret), "the function "+e.Why+" although the wallet's account creation/import did not succeed (e.g. a deferred closure overwriting the named error result)", "nil error only below [create/import err == nil]", an.PathString(c.Pos, e.Path))
+		}
+		if len(esc) == 0 && len(commits) > 0 {
+			creators[fn] = true
+			c.R.OK(rule, Fn(fn), c.P.FuncPos(fn), "nil error only below [create/import err == nil]")
+		}
+	}
+	c.R.Floor(rule, "account-creating functions", n, 2)
+	// callers: success only if the creator succeeded
+	for _, name := range []string{"OnCommit", "OnGenerate"} {
+		F := p.Methods[name]
+		isCreatorCall := func(ci ssa.CallInstruction) bool {
+			f := ci.Common().StaticCallee()
+			return f != nil && creators[f]
+		}
+		if len(Calls(F, isCreatorCall)) == 0 {
+			continue
+		}
+		// only the success returns that are reachable after the creator call matter
+		k := errResultIndex(F)
+		bad := false
+		for _, cc := range Calls(F, isCreatorCall) {
+			errs := map[ssa.Value]bool{}
+			for _, e := range errValuesOfCall(cc) {
+				errs[e] = true
+			}
+			for _, ret := range an.Returns(F) {
+				if !isNilConst(unwrapErr(an.Result(ret, k))) && !errs[unwrapErr(an.Result(ret, k))] {
+					continue
+				}
+				if errs[unwrapErr(an.Result(ret, k))] {
+					continue // returns the creator's own verdict
+				}
+				if !an.Reachable(an.After(cc), ret) {
+					continue
+				}
+				target := ssa.Instruction(ret)
+				if x, path := an.Cut(an.CutQuery{From: an.After(cc), Target: func(i ssa.Instruction) bool { return i == target },
+					AcceptEdge: func(b *ssa.BasicBlock, i int, a *an.Atom) bool { return errNilAtom(a, errs) }}); x != nil {
+					bad = true
+					c.R.Fail(rule, Fn(F)+":"+CalleeName(cc), c.Pos(ret), name+" can report success although storing the account failed", "success only below [store err == nil]", an.PathString(c.Pos, path))
+				}
+			}
+		}
+		if !bad {
+			c.R.OK(rule, Fn(F), c.P.FuncPos(F), name+" reports success only below the nil-error edge of the account-storing call")
+		}
+	}
 }
